@@ -139,6 +139,10 @@ func (r *Report) Finish() int {
 			switch cv.Res.Status {
 			case "unsat":
 				fmt.Printf("VACUOUS: %s is unreachable under the assumed contracts (%s)\n", cv.Name, cv.Clause)
+				if r.Dump != "" {
+					os.MkdirAll(r.Dump, 0o755)
+					os.WriteFile(filepath.Join(r.Dump, sanitize(cv.Name)+".smt2"), []byte(r.Scripts[cv]+"(check-sat)\n"), 0o644)
+				}
 				engineErr = true
 				coversBad++
 			case "sat", "dead-path":
